@@ -24,7 +24,7 @@ from ..bits import Bits, BitEval, LinV, NeedPred, NeedSplit, Pred, Region, Top, 
 from ..ctor import init_attrs
 from ..facts import simplify, atoms, call_is, meth_is, strip
 from ..model import AnalysisError, norm
-from ..terms import is_const, pc_term, replace, show, subterms, summarize
+from ..terms import is_const, pc_term, replace, show, subterms, summarize, unview
 
 CMD = "msmart.device.AC.command"
 SR = f"{CMD}.StateResponse"
@@ -146,7 +146,42 @@ def run(ctx):
     s = summarize(prog, fn)
     self_p, pay_p = fn.params[0], fn.params[1]
     defaults = init_attrs(prog, prog.cls(SR))
-    ctx.fn(f"{SR}.__init__")
+    ini = ctx.fn(f"{SR}.__init__")
+    # the constructor hands every payload of reportable length to _parse: its own rejections (raise / return before the parse) are limited
+    # to payloads shorter than the shortest state response (16 bytes), and the call of _parse is not under any other condition
+    MINLEN = 16
+    si = summarize(prog, ini)
+    ipay = ("param", ini.params[1]) if len(ini.params) > 1 else None
+
+    def only_short(pc_):
+        """the path is taken only by payloads shorter than MINLEN"""
+        for a_ in atoms(pc_):
+            a_ = strip(a_)
+            if a_[0] == "cmp" and call_is(strip(a_[2]), "len") and unview(strip(a_[2])[2][0]) == ipay and is_const(a_[3]) and isinstance(a_[3][1], int):
+                if (a_[1] == "<" and a_[3][1] <= MINLEN) or (a_[1] == "<=" and a_[3][1] < MINLEN) or (a_[1] == "==" and a_[3][1] < MINLEN):
+                    return True
+        return False
+
+    def reaches_all(pc_):
+        """the path condition holds for every payload of at least MINLEN bytes"""
+        for a_ in atoms(pc_):
+            a_ = strip(a_)
+            if a_[0] == "cmp" and call_is(strip(a_[2]), "len") and unview(strip(a_[2])[2][0]) == ipay and is_const(a_[3]) and isinstance(a_[3][1], int) \
+                    and ((a_[1] == ">=" and a_[3][1] <= MINLEN) or (a_[1] == ">" and a_[3][1] < MINLEN) or (a_[1] == "!=" and a_[3][1] < MINLEN)):
+                continue
+            return False
+        return True
+    early = [(pc_, n_) for pc_, _e, n_, _st in si.raises if n_ is not None and isinstance(n_, ast.Raise) and not only_short(pc_)]
+    early += [(pc_, n_) for pc_, _t, n_, _st in si.returns if n_ is not None and not only_short(pc_)]
+    parse_stmts = [n_ for n_ in ast.walk(ini.node) if isinstance(n_, ast.Expr) and isinstance(n_.value, ast.Call) and isinstance(n_.value.func, ast.Attribute)
+                   and n_.value.func.attr == fn.name and n_ in si.ta.env_at]
+    handed = any(reaches_all(si.ta.env_at[n_].pc) for n_ in parse_stmts)
+    ctx.count("constructor_paths", len(si.returns) + len(si.raises))
+    ctx.ob("C11.e", ini.qual, handed and not early, "StateResponse.__init__ parses every payload of 16 bytes or more (its own rejections are limited to shorter ones)",
+           func=ini.qual, file=ini.module.rel, node=early[0][1] if early else None, construct="self._parse(payload)",
+           fail=("the constructor rejects or skips state responses of reportable length " + (f"(`{norm(early[0][1])[:70]}` when " +
+                 " and ".join(show(a_)[:40] for a_ in atoms(early[0][0])[-2:]) + ")" if early else "(the _parse call is conditional)") +
+                 ": a legacy short response is dropped and refresh() exposes defaults instead of the reported state"))
 
     # an attribute _parse leaves alone on some path still holds what __init__ stored
     untouched = {("attr", ("param", self_p), a): v for a, v in defaults.items()}
@@ -463,6 +498,10 @@ def run(ctx):
         ctx.ob("C11.e", rv.qual, crc_ne and sum_ne, "a state response is rejected only when its check byte matches neither the CRC-8 nor the additive checksum (both device styles decode)",
                func=rv.qual, file=rv.module.rel, node=node, detail={"facts": [show(f)[:100] for f in facts]},
                fail="responses using one of the two trailing check styles (CRC-8 / additive) are rejected: the rejection does not require *both* checks to fail")
+    # a reported state is only exposed if its (valid) frame is accepted: the outer checksum the validator recomputes is the 8-bit two's
+    # complement for every byte sum (C12.a) - a formula that is off for one residue drops 1 report in 256
+    from . import c12
+    ctx.import_rules(c12, "t12", only=("C12.a",))
     ctx.require_min("body_check_rejections", 1)
     ctx.require_min("regions", 6)
     ctx.require_min("attributes", 19)
